@@ -163,6 +163,22 @@ def read_strings(ui_xml):
     return got
 
 
+# grouped values with no constant member, partly constant ones, empty groups: every <property> still holds exactly one value element
+DYN_GADGETS = [
+    "QLabel { sizePolicy.horizontalPolicy: chk.checked ? QSizePolicy.Expanding : QSizePolicy.Fixed; sizePolicy.verticalPolicy: chk.checked ? QSizePolicy.Fixed : QSizePolicy.Expanding }",
+    "QLabel { sizePolicy.horizontalStretch: spin.value }", "QLabel { sizePolicy { } }", "QLabel { sizePolicy.horizontalStretch: 1; sizePolicy.verticalStretch: spin.value }",
+    "QLabel { sizePolicy.horizontalPolicy: QSizePolicy.Expanding; sizePolicy.verticalPolicy: QSizePolicy.Fixed; sizePolicy.horizontalStretch: spin.value }",
+    "QLabel { font.bold: chk.checked }", "QLabel { font { } }", "QLabel { font.bold: chk.checked; font.family: \"Mono\" }", "QLabel { font { pointSize: spin.value; italic: chk.checked } }",
+    "QLabel { geometry { } }", "QLabel { geometry.x: spin.value }", "QLabel { geometry.x: 1; geometry.width: spin.value }", "QLabel { minimumSize { } }", "QLabel { minimumSize.width: spin.value }",
+    "QLabel { palette { } }", "QLabel { palette.window: chk.checked ? \"red\" : \"blue\" }", "QLabel { palette.active { } }", "QLabel { palette.active { window: \"red\" } palette.disabled { } }",
+    "QLabel { palette.active.window: chk.checked ? \"red\" : \"blue\"; palette.base: \"tan\" }",
+    "QVBoxLayout { contentsMargins { } }", "QVBoxLayout { contentsMargins.left: spin.value }", "QVBoxLayout { contentsMargins.left: 1; contentsMargins.top: spin.value }",
+    "QVBoxLayout { QSpacerItem { sizeHint { } } }", "QVBoxLayout { QSpacerItem { sizeHint.width: 5 } }", "QTableView { horizontalHeader { } }", "QTableView { horizontalHeader { visible: false } verticalHeader { } }",
+    "QComboBox { model: [] }", "QListWidget { model: [] }", "QPushButton { icon { } }", "QPushButton { icon.name: \"x\" }", "QPushButton { icon.normalOff: \"a.png\"; icon.name: \"x\" }",
+    "QGraphicsView { backgroundBrush { } }", "QGraphicsView { backgroundBrush.color: \"red\" }", "QGraphicsView { backgroundBrush.style: Qt.Dense1Pattern }",
+]
+
+
 def cli_written(chk, qmluic):
     """what the command-line tool actually leaves on disk, in normal runs and when the file system accepts only part of a write
     (RLIMIT_FSIZE with SIGXFSZ ignored: write() returns a short count, then EFBIG): [(id, source, text of a .ui found afterwards)]"""
@@ -191,6 +207,23 @@ def cli_written(chk, qmluic):
             if limit is None and p.returncode == 0 and not glob.glob(os.path.join(d, "*.ui")):
                 raise ToolError("no .ui written for %s" % name)
             shutil.rmtree(d, ignore_errors=True)
+    # several sources in one invocation, in both modes: each file holds its own document only
+    stat = {"Alpha.qml": 'import qmluic.QtWidgets\nQWidget { QLabel { text: "a" } }\n', "Beta.qml": 'import qmluic.QtWidgets\nQDialog { QVBoxLayout { QPushButton { text: "b" } } }\n',
+            "Gamma.qml": 'import qmluic.QtWidgets\nQWidget { windowTitle: "g"; QLineEdit { } }\n'}
+    for opts in ([], ["--no-dynamic-binding"]):
+        for order in (["Alpha.qml", "Beta.qml", "Gamma.qml"], ["Gamma.qml", "Alpha.qml"], ["Beta.qml", "Beta.qml", "Alpha.qml"]):
+            d = tempfile.mkdtemp(prefix="c09m-", dir=chk.work)
+            for n, t in stat.items():
+                open(os.path.join(d, n), "w").write(t)
+            p = subprocess.run([qmluic, "generate-ui", "--foreign-types", QT5_METATYPES] + opts + order, cwd=d, capture_output=True, text=True, timeout=60)
+            chk.count({"cli_multi": order, "opts": opts}, nontrivial=True)
+            if p.returncode != 0:
+                raise ToolError("multi-source invocation %s %s failed: %s" % (opts, order, p.stderr[-300:]))
+            for n in set(order):
+                g = os.path.join(d, n[:-4].lower() + ".ui")
+                text = open(g, "rb").read().decode("utf-8", "replace") if os.path.exists(g) else "<missing/>"
+                found.append(("written by the tool for %s in the invocation %s %s" % (n, " ".join(opts), " ".join(order)), stat[n], text, n[:-4]))
+            shutil.rmtree(d, ignore_errors=True)
     return found
 
 
@@ -199,7 +232,7 @@ def run(chk):
     quick = chk.tier == "quick"
     r = random.Random(chk.seed)
     docs = []      # (id, request, typename)
-    trees = T.tlc_trees(chk, 4, 300 if quick else 100000, chk.seed) + T.tlc_trees(chk, 5, 150 if quick else 6000, chk.seed + 1)
+    trees = T.tlc_trees(chk, 4, 300 if quick else 100000, chk.seed) + (T.tlc_trees(chk, 6, 150, chk.seed + 1, which="random") if quick else T.tlc_trees(chk, 5, 6000, chk.seed + 1))
     for n, t in enumerate(trees):
         t = T.assign_ids(t, r.choice(["anon", "some", "all", "actions"]) if any(T.kind(x["cls"]) in ("action", "menu") for x, _ in T.nodes(t)) else "some", r)
         docs.append(("tree%d" % n, T.request("tree%d" % n, t), "Doc"))
@@ -208,6 +241,9 @@ def run(chk):
     for n, c in enumerate(lay.printed("LAYOUT")):
         docs.append(("lay%d" % n, {"id": "lay%d" % n, "src": c12.render(c["layout"]), "type_name": "Doc", "modes": ["generate"]}, "Doc"))
     docs.append(("gadgets", {"id": "gadgets", "src": GADGETS, "type_name": "My_Type9", "modes": ["generate"]}, "My_Type9"))
+    for n, body in enumerate(DYN_GADGETS):
+        src = "import qmluic.QtWidgets\nQWidget { QCheckBox { id: chk } QSpinBox { id: spin } %s }\n" % body
+        docs.append(("dyngadget%d" % n, {"id": "dyngadget%d" % n, "src": src, "type_name": "Doc", "modes": ["generate"]}, "Doc"))
     for f in sorted(glob.glob(os.path.join(REPO, "examples", "*.qml"))):
         name = os.path.basename(f)[:-4]
         docs.append(("ex_" + name, {"id": "ex_" + name, "src": open(f).read(), "type_name": name, "modes": ["generate"]}, name))
